@@ -720,11 +720,11 @@ def main(ck):
             labels=['roundtrip:generated'] + [l for l in gm.labels() if l.split(':')[0] in (
                 'mesh', 'hfield', 'texture', 'material', 'default-class', 'frame', 'replicate', 'keyframe', 'tuple',
                 'geom-adhesion', 'pair-adhesion', 'gravcomp', 'surfacevel', 'numeric', 'text', 'pair', 'exclude')])
-  ck.run_hypothesis(rt_test, st.tuples(gen_io.rich_models(max_bodies=4, memory='2M', fusestatic=False), mg.state_seed()), ck.budget(16, 250),
+  ck.run_hypothesis(rt_test, st.tuples(gen_io.rich_models(max_bodies=4, memory='2M', fusestatic=False), mg.state_seed()), ck.budget(16, 120),
                     name='roundtrip', shrink=False)
   _tick('roundtrip-generated')
   files = [f for f in corpus.xml_files(lib.repo) if os.path.getsize(f) < (4000 if quick else 40000)]
-  files = [files[i] for i in rng.permutation(len(files))][:ck.budget(14, 110)]
+  files = [files[i] for i in rng.permutation(len(files))][:ck.budget(14, 60)]
   crecs = []
   for f, m in corpus.iter_models(lib, files):
     if int(lib.mj_sizeModel(m)) > (1 << 20 if quick else 64 << 20):
@@ -786,9 +786,9 @@ def main(ck):
     c.run_cases(r, c.size_cases(r, names=names, quick=quick))
     c.run_cases(r, c.header_cases(r))
   _tick('sizes-header')
-  for r in targets[:ck.budget(1, 8)]:
+  for r in targets[:ck.budget(1, 4)]:
     every = (not quick) and r['nbytes'] < 15000
-    c.run_truncations(r, c.truncation_lengths(r, rng, ck.budget(40, 3000), every=every))
+    c.run_truncations(r, c.truncation_lengths(r, rng, ck.budget(40, 1500), every=every))
 
   _tick('truncation')
   # ---------- (c3) random corruptions drawn by Hypothesis
@@ -803,7 +803,7 @@ def main(ck):
   infos = [lay_info(lib, r) for r in pool]
   strat = st.integers(0, len(pool) - 1).flatmap(
       lambda i: st.tuples(st.just(i), random_corruptions(infos[i], 40)))
-  ck.run_hypothesis(rnd_test, strat, ck.budget(6, 500), name='random-corruption', shrink=False)
+  ck.run_hypothesis(rnd_test, strat, ck.budget(6, 120), name='random-corruption', shrink=False)
 
   _tick('random')
   # ---------- (d) libFuzzer
@@ -829,7 +829,7 @@ def fuzz(ck, c, recs):
     with open(os.path.join(cdir, 'seed%03d.mjb' % n), 'wb') as f:
       f.write(r['data'])
     n += 1
-  secs = ck.budget(15, 300)
+  secs = ck.budget(15, 240)
   jobs = 1 if ck.quick else 4
   cmd = [exe, cdir, '-max_total_time=%d' % secs, '-artifact_prefix=' + adir + '/', '-max_len=400000', '-timeout=20',
          '-rss_limit_mb=3000', '-malloc_limit_mb=512', '-seed=%d' % ck.seed, '-print_final_stats=1', '-len_control=0']
